@@ -15,6 +15,7 @@ mod c10net;
 mod c11;
 mod c11net;
 mod c12;
+mod live;
 mod apinode;
 mod c14;
 mod storeops;
@@ -227,19 +228,20 @@ fn main() {
         "C01" => run(c01::C01::new(), &args, 1500, 50000),
         "C02" => run(c02::C02::new(listed_findings("C02")), &args, 3000, 60000),
         "C03" => run(c03::C03::new(), &args, 1500, 40000),
-        "C04" => run2(c04::C04::new(), c04sys::C04Sys::new(), "system", &args, (300, 6), (6000, 80)),
+        "C04" => run_parts("C04", vec![part(c04::C04::new(), "", (300, 6000)), part(c04sys::C04Sys::new(), "system", (6, 80)), part(live::Live::new("C04"), "live", (120, 2500))], &args),
         "C05" => run_parts("C05", vec![part(c05::C05::new(), "", (2500, 40000)), part(apinode::ApiNode::new("C05"), "node", (60, 1500))], &args),
         "C06" => run(c06::C06::new(), &args, 250, 4000),
         "C08" => run(c08::C08::new(), &args, 700, 20000),
         "C09" => run_parts("C09", vec![part(c09::C09::new(), "", (400, 8000)), part(c09gossip::C09Gossip::new(), "gossip", (400, 8000))], &args),
         "C10" => run2(c10::C10::new(), c10net::C10Net::new(), "connection", &args, (300, 60), (5000, 1500)),
-        "C11" => run_parts("C11", vec![part(c11::C11::new(), "", (600, 10000)), part(c11net::C11Net::new(), "net", (24, 400))], &args),
+        "C11" => run_parts("C11", vec![part(c11::C11::new(), "", (600, 10000)), part(c11net::C11Net::new(), "net", (24, 400)), part(live::Live::new("C11"), "live", (120, 2500))], &args),
         "C12" => run_parts("C12", vec![part(c12::C12::new(), "", (600, 10000)), part(apinode::ApiNode::new("C12"), "node", (60, 1500))], &args),
         "C13" => run(storeprops::StoreProp::new("C13"), &args, 2500, 40000),
         "C16" => run_parts("C16", vec![part(storeprops::StoreProp::new("C16"), "", (1500, 20000)), part(c14::C14::removal(), "actor", (300, 5000)), part(apinode::ApiNode::new("C16"), "node", (60, 1500))], &args),
-        "C17" => run_parts("C17", vec![part(storeprops::StoreProp::new("C17"), "", (2000, 30000)), part(apinode::ApiNode::new("C17"), "node", (60, 1500)), part(c11::C11::registration(), "engine", (150, 3000))], &args),
+        "C17" => run_parts("C17", vec![part(storeprops::StoreProp::new("C17"), "", (2000, 30000)), part(apinode::ApiNode::new("C17"), "node", (60, 1500)), part(c11::C11::registration(), "engine", (150, 3000)), part(live::Live::new("C17"), "live", (120, 2500))], &args),
         "C14" => run_parts("C14", vec![part(c14::C14::new(), "", (500, 8000)), part(apinode::ApiNode::new("C14"), "node", (60, 1500))], &args),
-        "C15" => run_parts("C15", vec![part(storeprops::StoreProp::new("C15"), "", (2000, 30000)), part(apinode::ApiNode::new("C15"), "node", (60, 1500))], &args),
+        "C15" => run_parts("C15", vec![part(storeprops::StoreProp::new("C15"), "", (2000, 30000)), part(apinode::ApiNode::new("C15"), "node", (60, 1500)), part(live::Live::new("C15"), "live", (120, 2500))], &args),
+        "LIVE" => run(live::Live::new("LIVE"), &args, 200, 4000),
         "NODE" => run(apinode::ApiNode::new("NODE"), &args, 60, 1500),
         "C18" => run(storeprops::StoreProp::new("C18"), &args, 300, 4000),
         "C07" => run3(storeprops::StoreProp::new("C07"), c14::C14::capabilities(), c07api::C07Api::new(), &args, (2000, 400, 150), (30000, 6000, 2500)),
